@@ -269,6 +269,27 @@ def rule_links(ctx, repo):
         Q.has("self.pu_coeff = $pi.pu_coeff[$uid]", p.fn, e)
     ctx.check(ok, "C10.link", "ExtParam.link_external/model", "v, vin, pu_coeff taken at idx2uid(indexer.v)",
               "external parameter values no longer follow the indexer", p.W())
+    # every definition of the position vector that does not come from the indexer is reachable only when there is no indexer
+    if e is not None:
+        un = src(e["uid"])
+        defs = [st for st in walk_noscope(p.fn) if isinstance(st, ast.Assign) and any(dotted(t) == un for t in st.targets)]
+        bad = []
+        for st in defs:
+            if "indexer" in src(st.value):
+                continue
+            chain = Q.condition_chain(p.fn, st) or []
+            implied = False
+            for c in chain:
+                if not hasattr(c, "test") or not any(y is st for b_ in (c.body,) for x in b_ for y in ast.walk(x)):
+                    continue        # st is in the else branch of c
+                conj = c.test.values if isinstance(c.test, ast.BoolOp) and isinstance(c.test.op, ast.And) else [c.test]
+                if any(Q.match("self.indexer is None", t) is not None for t in conj):
+                    implied = True
+            if not implied:
+                bad.append("`%s` (guard: %s)" % (src(st), " / ".join(src(c.test) for c in chain if hasattr(c, "test")) or "none"))
+        ctx.check(not bad, "C10.link", "ExtParam.link_external/positional", "positional read only when the parameter has no indexer",
+                  "position-based definition %s can be taken although an indexer exists: values are then read by position, not from the "
+                  "device named by the idx" % "; ".join(bad), p.W())
     n_get = 0
     for c in calls_in(p.fn):
         if dotted(c.func) == "%s.get" % a[1]:
